@@ -176,7 +176,7 @@ struct hrec
 
 // functor instrumentation (harness state; excluded from the write-set check by the hv_ prefix)
 struct state {
-    unsigned nred, red[MAXRED], nterm, tline[MAXTERM], tcol[MAXTERM], tval[MAXTERM], flags;
+    unsigned nred, red[MAXRED], nterm, tline[MAXTERM], tcol[MAXTERM], tval[MAXTERM], flags, moves;
 };
 extern state hv_S;
 inline void reset() { hv_S = state{}; }
@@ -186,6 +186,7 @@ inline unsigned seen_term(const ctpg::term_value<unsigned>& t) {
     else hv_S.flags |= 4u;
     return t.get_value();
 }
+struct trk; inline unsigned arg(const trk& t);
 inline unsigned arg(unsigned v) { return v; }
 inline unsigned arg(const ctpg::term_value<unsigned>& t) { return seen_term(t); }
 // rule value: ((..((R*P + a1)*P + a2)..)*P + ak), R = 7919*(rule+1), P = 31 (mod 2^32)
@@ -209,6 +210,18 @@ inline void flush(uint32_t* out) {
     for (unsigned i = 0; i < MAXTERM; ++i) { out[O_TERM0 + TERM_SLOTS * i] = hv_S.tline[i]; out[O_TERM0 + TERM_SLOTS * i + 1] = hv_S.tcol[i]; out[O_TERM0 + TERM_SLOTS * i + 2] = hv_S.tval[i]; }
 }
 
+// ---- tracked move-only semantic value (C14): copying does not compile; using or moving a moved-from value is flagged
+struct trk {
+    unsigned v = 0, st = 0;                 // st: 0 never assigned, 1 live, 2 moved-from
+    trk() = default;
+    explicit trk(unsigned v) : v(v), st(1) {}
+    trk(const trk&) = delete; trk& operator=(const trk&) = delete;
+    trk(trk&& o) : v(o.v), st(o.st) { if (o.st != 1) hv_S.flags |= 16u; o.st = 2; hv_S.moves++; }
+    trk& operator=(trk&& o) { if (o.st != 1) hv_S.flags |= 16u; v = o.v; st = o.st; o.st = 2; hv_S.moves++; return *this; }
+};
+inline unsigned arg(const trk& t) { if (t.st != 1) hv_S.flags |= 16u; return t.v; }
+template<typename... A>
+inline trk redt(unsigned rule, const A&... a) { return trk(red(rule, a...)); }
 // ---- contexts (C13)
 struct ctx_t { unsigned counter = 0; unsigned tag = 0; };
 struct mo_ctx { unsigned counter = 0; unsigned tag = 0; mo_ctx() = default; mo_ctx(const mo_ctx&) = delete; mo_ctx& operator=(const mo_ctx&) = delete; mo_ctx(mo_ctx&&) = default; };
